@@ -26,7 +26,8 @@ twins) for TreeSlot::load vs Guard::repin / drop(guard) / escaping the pin scope
 record. Not decided: absence of undefined behaviour in general (dependencies, allocator contracts, data races in deps).
 """
 DECIDED = ["unsafe inventory gate", "epoch reclamation obligations", "in-flight io_uring buffer obligations", "AlignedBuffer invariants and syscall lengths",
-           "lifetime witnesses (thorough tier)"]
+           "lifetime witnesses (thorough tier)",
+           'io_uring submissions carry pointer and length of the same retained buffer, the length only cast']
 NOT_DECIDED = ["general freedom from undefined behaviour", "soundness of dependencies' unsafe code"]
 ASSUMPTIONS = ["crossbeam-epoch, scc, parking_lot, bytes, io-uring and libc uphold their documented safety contracts"]
 TECHNIQUE = "static analysis: unsafe inventory over HIR + MIR dominance/provenance rules + compile-fail lifetime witnesses with compiling twins"
